@@ -64,35 +64,61 @@ def to_smt2(ob: Oblig) -> str:
     return s.to_smt2()
 
 
-def _solve_one(job) -> Dict[str, Any]:
-    idx, smt2, expect_sat, want_model = job[:4]
+_OBLIGS: List[Oblig] = []
+
+
+def _build_solver(ob: Oblig, timeout_ms: int, qf_only=False):
+    s = z3.Solver()
+    s.set("timeout", timeout_ms)
+    terms = list(ob.assumptions) + [ob.goal]
+    ax = seqs.global_axioms()
+    need = set()
+    for t in terms:
+        if seqs.mentions(t, seqs.W):
+            need.update(["W.range", "W.ascii"])
+        if seqs.mentions(t, seqs.pcell):
+            need.update(["pcell.unfold", "pcell.mono", "W.range", "W.ascii"])
+        if seqs.mentions(t, seqs.psum):
+            need.add("psum.unfold")
+        if seqs.mentions(t, seqs.rpsum):
+            need.add("rpsum.unfold")
+    if not qf_only:
+        for n in sorted(need):
+            s.add(ax[n])
+    for a in ob.assumptions:
+        if qf_only and _has_quant(a):
+            continue
+        s.add(a)
+    if not ob.expect_sat:
+        s.add(z3.Not(ob.goal))
+    return s
+
+
+def _solve_one(idx) -> Dict[str, Any]:
+    """runs in a forked worker: the obligation objects are inherited from the parent's memory"""
+    ob = _OBLIGS[idx]
     t0 = time.time()
-    if expect_sat:
-        return _solve_cover(idx, smt2, job[4], t0)
+    if ob.expect_sat:
+        return _solve_cover(idx, ob, t0)
     out: Dict[str, Any] = {"idx": idx, "verdict": "unknown", "solver": None, "time": 0.0, "model": None, "reason": ""}
-    # --- z3 via API
     try:
-        ctx = z3.Context()
-        s = z3.Solver(ctx=ctx)
-        s.set("timeout", Z3_TIMEOUT_MS)
-        s.from_string(smt2)
+        s = _build_solver(ob, Z3_TIMEOUT_MS)
         r = s.check()
         if r == z3.unsat:
             out.update(verdict="unsat", solver=f"z3 {z3.get_version_string()}")
         elif r == z3.sat:
             out.update(verdict="sat", solver=f"z3 {z3.get_version_string()}")
-            if want_model:
-                try:
-                    m = s.model()
-                    out["model"] = {d.name(): str(m[d]) for d in m.decls()}
-                except Exception as e:  # pragma: no cover
-                    out["model"] = {"<error>": str(e)}
+            try:
+                m = s.model()
+                out["model"] = {d.name(): str(m[d])[:400] for d in m.decls()}
+            except Exception as e:  # pragma: no cover
+                out["model"] = {"<error>": str(e)}
         else:
             out["reason"] = s.reason_unknown()
     except Exception as e:
         out["reason"] = f"z3 error: {e}"
     if out["verdict"] == "unknown":
-        # --- cvc5 CLI, then z3-new CLI
+        smt2 = to_smt2(ob)
         with tempfile.NamedTemporaryFile("w", suffix=".smt2", delete=False) as f:
             f.write("(set-logic ALL)\n" + smt2)
             path = f.name
@@ -105,12 +131,9 @@ def _solve_one(job) -> Dict[str, Any]:
                     p = subprocess.run(cmd, capture_output=True, text=True, timeout=tmo)
                     first = (p.stdout.strip().splitlines() or [""])[0].strip()
                     if first in ("unsat", "sat"):
-                        # a `sat` from a back end on a quantified problem is only believed for covers
-                        if first == "unsat" or expect_sat:
-                            out.update(verdict=first, solver=name)
-                            break
-                        out["reason"] += f" | {name}: sat (model not extracted)"
-                        out.update(verdict="sat", solver=name)
+                        out.update(verdict=first, solver=name)
+                        if first == "sat":
+                            out["reason"] += f" | {name}: sat (model not extracted)"
                         break
                     out["reason"] += f" | {name}: {first or p.stderr.strip()[:80]}"
                 except subprocess.TimeoutExpired:
@@ -123,14 +146,11 @@ def _solve_one(job) -> Dict[str, Any]:
     return out
 
 
-def _solve_cover(idx, smt2, smt2_qf, t0):
+def _solve_cover(idx, ob, t0):
     out = {"idx": idx, "verdict": "unknown", "solver": None, "time": 0.0, "model": None, "reason": ""}
-    for text, label, tmo in ((smt2, "z3 (full)", 2000), (smt2_qf, "z3 (quantifier-free part)", 5000)):
+    for qf, label, tmo in ((False, "z3 (full)", 2000), (True, "z3 (quantifier-free part)", 5000)):
         try:
-            ctx = z3.Context()
-            s = z3.Solver(ctx=ctx)
-            s.set("timeout", tmo)
-            s.from_string(text)
+            s = _build_solver(ob, tmo, qf_only=qf)
             r = s.check()
         except Exception as e:  # pragma: no cover
             out["reason"] += f" | {label}: {e}"
@@ -139,7 +159,7 @@ def _solve_cover(idx, smt2, smt2_qf, t0):
             out.update(verdict="unsat", solver=label)
             break
         if r == z3.sat:
-            out.update(verdict="sat" if label == "z3 (full)" else "qf-sat", solver=label)
+            out.update(verdict="sat" if not qf else "qf-sat", solver=label)
             break
         out["reason"] += f" | {label}: unknown"
     out["time"] = time.time() - t0
@@ -148,22 +168,23 @@ def _solve_cover(idx, smt2, smt2_qf, t0):
 
 def discharge(obligs: List[Oblig], procs: int = None) -> List[Dict[str, Any]]:
     """Returns one result dict per obligation (same order)."""
+    global _OBLIGS
     procs = procs or min(16, os.cpu_count() or 4)
     results: List[Dict[str, Any]] = [None] * len(obligs)  # type: ignore
     jobs = []
-    seen: Dict[str, int] = {}
+    seen: Dict[Any, int] = {}
     dup_of: Dict[int, int] = {}
     for i, ob in enumerate(obligs):
         if not ob.expect_sat and z3.is_true(ob.goal):
             results[i] = {"idx": i, "verdict": "unsat", "solver": "syntactic", "time": 0.0, "model": None, "reason": ""}
             continue
-        smt2 = to_smt2(ob)
-        h = hashlib.sha1((smt2 + str(ob.expect_sat)).encode()).hexdigest()
+        h = (ob.expect_sat, ob.goal.get_id(), tuple(a.get_id() for a in ob.assumptions))
         if h in seen:
             dup_of[i] = seen[h]
             continue
         seen[h] = i
-        jobs.append((i, smt2, ob.expect_sat, not ob.expect_sat, to_smt2_qf(ob) if ob.expect_sat else None))
+        jobs.append(i)
+    _OBLIGS = obligs
     if jobs:
         if procs > 1 and len(jobs) > 1:
             with mp.get_context("fork").Pool(min(procs, len(jobs))) as pool:
